@@ -17,6 +17,7 @@ import random
 import shutil
 import sqlite3
 import tempfile
+import time
 from dataclasses import dataclass
 from datetime import UTC, datetime
 from pathlib import Path
@@ -117,8 +118,8 @@ class ModelPeer(Peer):
         await self.srv.setup()
 
     async def handle(self, idx: int, data: bytes) -> bytes | None:
-        if idx in self.idles:
-            self.st.last_time_active -= 11.0
+        # bus timing is an environment event, not wall-clock luck: idle > 10 s exactly where scripted
+        self.st.last_time_active = time.time() - (11.0 if idx in self.idles else 0.0)
         rep, _ = await self.st.handle_request(data)
         return None if idx in self.drops else rep
 
@@ -262,8 +263,9 @@ def _state(srv: DBUDSServer) -> dict[str, int]:
 
 
 async def replay_run(db: Path, reqs: list[bytes], ecu: str | None, props: dict[str, Any] | None,
-                     passes: int = 1) -> list[list[dict[str, Any]]]:
-    """A fresh DBUDSServer (default state, cursor -1) on `db`, asked `reqs` in order."""
+                     passes: int = 1, mutant: str | None = None) -> list[list[dict[str, Any]]]:
+    """A fresh DBUDSServer (default state, cursor -1) on `db`, asked `reqs` in order.
+    `mutant` (binding self-test only): "forget-cursor" resets the cursor between requests."""
     srv = DBUDSServer(db, ecu, props)
     await srv.setup()
     st = UDSServerTransport(srv, TargetURI("tcp-lines://127.0.0.1:1"))
@@ -273,6 +275,9 @@ async def replay_run(db: Path, reqs: list[bytes], ecu: str | None, props: dict[s
             obs = []
             for r in reqs:
                 ss = _state(srv)
+                st.last_time_active = time.time()  # requests arrive without bus idle
+                if mutant == "forget-cursor":
+                    srv.last_response = -1
                 try:
                     rep, _dt = await st.handle_request(r)
                     repl = [] if rep is None else list(rep)
@@ -301,7 +306,8 @@ async def _run_case(case: dict[str, Any], tmp: Path) -> list[dict[str, Any]]:
     if len(rows) != len(target["steps"]) or not rows:
         return [{"id": case["id"], "skip": "rows-lost-or-empty", "info": info}]
     reqs = [bytes(r["req"]) for r in rows]
-    obs = await replay_run(iso_db, reqs, None, None, passes=2 if case.get("second_pass") else 1)
+    obs = await replay_run(iso_db, reqs, None, None, passes=2 if case.get("second_pass") else 1,
+                           mutant=case.get("mutant"))
     base = [o["rep"] for o in obs[0]]
     out = [{"id": case["id"], "kind": "iso", "oob": [i + 1 for i in target.get("oob", [])],
             "sel": {"ecu": "", "props": []}, "rows": rows, "tgt": [r["id"] for r in rows],
